@@ -13,7 +13,7 @@ import (
 
 func newVC(e *Engine, fn *ssa.Function, known map[string]Sort, unmod map[string]map[string]bool) *VC {
 	vc := &VC{eng: e, U: NewUniverse(), fn: fn, declared: map[string]bool{}, heapSorts: map[string]Sort{}, known: map[string]Sort{}, loopUnmod: unmod,
-		loopUnmodNext: map[string]map[string]bool{}, notes: map[string]bool{}, externals: map[string]bool{}, inlined: map[string]bool{}, nameCount: map[string]int{}, defs: map[string]Term{}, faddrSeen: map[string]Term{}, unsup: map[string]bool{}, mapKeys: map[string][]Term{}, heapAlloc: map[string]Term{}}
+		loopUnmodNext: map[string]map[string]bool{}, notes: map[string]bool{}, externals: map[string]bool{}, inlined: map[string]bool{}, nameCount: map[string]int{}, defs: map[string]Term{}, faddrSeen: map[string]Term{}, unsup: map[string]bool{}, refLoops: map[Term]map[string]bool{}, mapKeys: map[string][]Term{}, heapAlloc: map[string]Term{}}
 	for k, v := range known {
 		vc.known[k] = v
 	}
@@ -459,6 +459,9 @@ func (fr *Frame) contractCall(fc *FuncContract, callee *ssa.Function, args []*Va
 		cpkg = vc.eng.spkgs[fc.PkgPath]
 	}
 	n := 5000 + len(vc.cmds)
+	if callee != nil && fn0Recv(callee) && len(args) > 0 {
+		fr.interference(args[0], callee.Params[0].Type())
+	}
 	pre := fr.st.clone()
 	env := &SpecEnv{fr: fr, vars: vars, cur: pre, old: pre, pkg: cpkg, nq: &n}
 	p := fr.pos(pos)
@@ -711,20 +714,22 @@ func (fr *Frame) havocModifies(fc *FuncContract, env *SpecEnv, callee *ssa.Funct
 			continue
 		}
 		old := vc.heap(fr.st, n, hs)
-		nw := vc.havocHeap(fr.st, n)
+		if len(byHeap[n]) > 0 {
+			fr.markDirty(n, "")
+		}
 		var exc []Term
 		whole := false
 		for _, t := range byHeap[n] {
 			if t.idx == "" {
 				whole = true
 			}
-			exc = append(exc, not(eq("r!q", t.idx)))
+			exc = append(exc, t.idx)
 		}
-		if whole {
+		if whole || !strings.HasPrefix(hs, "(Array Int ") {
+			vc.havocHeap(fr.st, n)
 			continue
 		}
-		cond := and(append([]Term{sx("<=", "r!q", allocPre)}, exc...)...)
-		vc.assume(fr.reach, fmt.Sprintf("(forall ((r!q Int)) (! (=> %s (= (select %s r!q) (select %s r!q))) :pattern ((select %s r!q))))", cond, nw, old, nw))
+		vc.frameHeap(fr.st, n, old, allocPre, exc)
 	}
 	na := vc.fresh("$alloc", SInt)
 	fr.st.heaps["$alloc"] = na
